@@ -96,6 +96,20 @@ impl SpillManager {
         files.retain(|p| p != path);
     }
 
+    /// Deletes a spill file created by this manager.
+    ///
+    /// The file is removed from disk, from the list of active files and from the
+    /// spilled-bytes total (which its creator registered after writing it).
+    ///
+    /// # Errors
+    ///
+    /// Returns an error if the file cannot be removed.
+    pub fn delete_file(&self, file: SpillFile) -> std::io::Result<()> {
+        self.unregister_file(file.path());
+        self.unregister_spilled_bytes(file.bytes_written());
+        file.delete()
+    }
+
     /// Returns total bytes currently spilled to disk.
     #[must_use]
     pub fn spilled_bytes(&self) -> u64 {
@@ -228,5 +242,23 @@ mod tests {
 
         // After manager is dropped, the file should be cleaned up
         assert!(!file_path.exists());
+    }
+
+    #[test]
+    fn test_delete_file_forgets_the_file() {
+        let temp_dir = TempDir::new().unwrap();
+        let manager = SpillManager::new(temp_dir.path()).unwrap();
+
+        let mut file = manager.create_file("run").unwrap();
+        file.write_all(b"data").unwrap();
+        file.finish_write().unwrap();
+        manager.register_spilled_bytes(file.bytes_written());
+        let path = file.path().to_path_buf();
+
+        manager.delete_file(file).unwrap();
+
+        assert!(!path.exists());
+        assert_eq!(manager.active_file_count(), 0);
+        assert_eq!(manager.spilled_bytes(), 0);
     }
 }
